@@ -7,6 +7,7 @@ open BbRe.Sched
 
 /-- bring every field of a `Core` fact into the context -/
 syntax "core_facts " term : tactic
+set_option hygiene false in
 macro_rules
   | `(tactic| core_facts $hc) => `(tactic| (
       have h_tnd := ($hc).tnd; have h_tid := ($hc).tid; have h_wnd := ($hc).wnd; have h_dnd := ($hc).dnd
@@ -161,6 +162,17 @@ theorem schedule_spec {ex exo} {h : Hints} {s : State} {tid : Nat} {t : Task} (h
     simp only [wp_pure]
     exact ⟨queue_inv hI ht hr htw, schedule_queue_post hid htw⟩
 
+
+/-- bumping the wake-up generation of a task -/
+theorem bumpGen_inv {ex exo} {s : State} {t : Task} {tid : Nat} (hI : InvX ex exo s)
+    (ht : alookup tid s.tasks = some t) : InvX ex exo (s.setTask (bumpGen t)) := by
+  have hid : t.id = tid := (hI.core.tid tid t ht).1
+  have ht' : alookup (bumpGen t).id s.tasks = some t := by simp only [bumpGen]; rw [hid]; exact ht
+  refine ⟨?_, hI.oinv.setTask (t := bumpGen t) ht' rfl, hI.sinv, hI.linv.setTask (t := bumpGen t) ht' (Or.inl rfl)⟩
+  simp only [State.setTask, bumpGen]
+  have hc := hI.core
+  core_facts hc
+  constructor <;> grind
 
 theorem SchedPost.fr {s s' : State} {tid : Nat} {t : Task} (h : SchedPost s tid t s')
     (ht : alookup tid s.tasks = some t) (hr : t.response = none) : Fr s s' := by
